@@ -396,7 +396,7 @@ def process_conformance(task):
     want = direct_run(f, kind, combos, fn_args, cs, constants)
     crop = make_crop_and_sow(f, d, case, combos, fn_args, cs, constants)
     B = crop.num_batches
-    env = dict(os.environ, PYTHONPATH="/repo")
+    env = dict(os.environ, PYTHONPATH=core.REPO)
     ids = list(range(B, 0, -1))
     code = ("import sys, xyzpy as xyz\n"
             "from xyzpy.gen.cropping import grow\n"
